@@ -158,9 +158,22 @@ CHECKS = {
             "Shells other than dash and bash are not covered. Under dash the `set -euo pipefail` line of the exec script is reduced to "
             "`set -eu` (dash has no pipefail); the quoting of assignments and command line is what is under test.",
             "DESIGN.md section 4 C08"),
+    "C09": ("exploration",
+            "bounded-exhaustive enumeration of import graphs, import positions, path spellings and working directories against the real "
+            "binary, with a Python resolver/evaluator model",
+            "Every digraph on 1..3 files including self-loops (530 graphs; thorough: + all 4 096 digraphs on 4 files without self-loops) in two "
+            "import spellings (top-level let, seen by the static resolver; inline (import ...).s, not seen) and up to 3 directory layouts: a "
+            "cycle reachable from the entry must give exit 1 with a cycle diagnostic (no signal, no timeout), otherwise exit 0, the model's "
+            "value and exactly one TRACE line per reachable file. 29 syntactic positions of an import / include expression x path spellings "
+            "x 3 working directories (project, sub-directory, /): same artifact from everywhere. 48 diamonds reaching one file under 2-3 "
+            "spellings from 3 working directories: evaluated once.",
+            "Projects of 5-8 files are beyond the bound; resolution, caching and cycle logic are per edge and per path and every "
+            "edge/path/position/cwd combination occurs within 3-4 files. Imports written inside @{...} of a format template are not "
+            "rewritten by the AST walker (they live in a string) and are not among the positions.",
+            "DESIGN.md section 4 C09"),
 }
 
-CLAIMED = ["C01", "C02", "C03", "C04", "C05", "C07", "C08", "C10", "C11", "C12", "C13", "C14", "C16", "C18"]
+CLAIMED = ["C01", "C02", "C03", "C04", "C05", "C07", "C08", "C09", "C10", "C11", "C12", "C13", "C14", "C16", "C18"]
 
 NOT_YET = "check not built yet in this round; design in DESIGN.md section 4 (bounded-exhaustive enumeration applies)"
 
